@@ -133,6 +133,10 @@ CHECKS["C27"] = dict(engine="tlc+vh", level="model_checking", ref="4.15", techni
                      text="ConsistentCut holds with aligned barriers and fails with barriers injected into every queue (recorded finding); every replayed schedule's real snapshot positions (events_processed of each acknowledged engine checkpoint) must be those the faithful model predicts.",
                      note=CTX_NOTE)
 
+CHECKS["C31"] = dict(engine="tlc+vh", level="model_checking", ref="4.18", technique="TLA+ spec (PathFs.tla): POSIX-like tree with symlinks and Resolve; TLC enumerates every request of the bound with its resolution; each request run through the real validate_path on a materialised tree",
+                     text="Exhaustive over the bounded request space (12 348 requests at 3 segments): an accepted path must canonicalise component-wise inside the work directory, exactly where the spec's Resolve says it is inside.",
+                     note="Trusted: the tree materialisation. Bounded: one tree (7 symlinks in/out, absolute/relative targets, sibling directory with a name-prefix relation), requests <= 3 (4) segments. Non-UTF-8 names are not generated.")
+
 NOT_APPLICABLE = {
     "C41": "parser totality over arbitrary strings: no state/transition system to specify; a TLA+ model would only enumerate token strings (fuzzing under another name)",
     "C43": "LSP handler robustness over arbitrary text/cursor: per-call robustness, no protocol state in the property; outside model-based verification",
